@@ -4,6 +4,8 @@ import (
 	"bytes"
 	"crypto/ed25519"
 	"encoding/pem"
+	"filippo.io/age"
+	"filippo.io/age/agessh"
 	"fmt"
 	"os"
 	"os/exec"
@@ -11,6 +13,7 @@ import (
 	"strings"
 	"syscall"
 	"time"
+	"verif/sim/seam"
 
 	"golang.org/x/crypto/ssh"
 
@@ -78,7 +81,7 @@ func (C15) Meta() core.Meta {
 		Assumptions: []string{"kernel, file system and process scheduling are real and not controlled; nothing in the oracle depends on timing (pipes are pre-filled or closed before start)", "passphrase flows (age -p, age -d of a passphrase file) run on a pseudo-terminal the simulator types into: right / wrong / empty passphrase, terminal hang-up, confirmation mismatch", "runs as root: permission-denied destinations are not generated", "a death by signal (SIGXFSZ, SIGPIPE) counts as a non-zero status", "the key age-keygen generates comes from the child process's real CSPRNG: its value is checked for consistency, never logged or compared between runs"},
 		Real:        []string{"cmd/age and cmd/age-keygen binaries built from the working tree", "Linux kernel: files, pipes, RLIMIT_FSIZE, /dev/full"},
 		Stub:        []string{"argv, environment, input files, identity/recipient files, file descriptors and limits (the plan)"},
-		FaultKinds:  []string{"fault.fsize", "fault.nodir", "fault.isdir", "fault.devfull", "fault.closedpipe", "fault.damage_header", "fault.damage_payload", "fault.damage_trunc", "fault.damage_trunc_chunk", "fault.no_matching_identity", "fault.competing_creator", "fault.passphrase_wrong", "fault.passphrase_empty", "fault.passphrase_hangup", "fault.passphrase_mismatch"},
+		FaultKinds:  []string{"fault.fsize", "fault.nodir", "fault.isdir", "fault.devfull", "fault.closedpipe", "fault.damage_header", "fault.damage_payload", "fault.damage_trunc", "fault.damage_trunc_chunk", "fault.no_matching_identity", "fault.competing_creator", "fault.passphrase_wrong", "fault.passphrase_empty", "fault.passphrase_hangup", "fault.passphrase_mismatch", "fault.passphrase_notmine"},
 		Probes:      []string{"probe.exit0_complete", "probe.exit_nonzero", "probe.killed_by_signal", "probe.same_file_refused", "probe.pre_existing_output", "probe.keygen_mode_checked", "probe.empty_plaintext", "probe.multi_chunk", "probe.fsize_limit_below_output", "probe.fsize_limit_at_or_above_output", "probe.header_refusal_output_untouched", "probe.partial_output_is_prefix", "probe.stdin_input", "probe.several_identity_files", "probe.dash_names", "probe.pre_existing_symlink", "probe.race_competitor_refused", "probe.race_competitor_created", "probe.passphrase_on_pseudo_terminal"},
 	}
 }
@@ -184,12 +187,17 @@ func (C15) Generate(r *core.RNG, tier string, idx uint64) interface{} {
 			p.Op = "encrypt-p"
 			p.Answer = []string{"match", "mismatch"}[r.Intn(2)]
 			p.PLen = r.Pick(0, 1, 100)
+		} else if r.Chance(1, 3) {
+			// a passphrase-protected SSH key file as -i: asked for only if the file is addressed to it
+			p.Op = "decrypt-sshenc"
+			p.Answer = []string{"right", "wrong", "notmine", "notmine", "hangup"}[r.Intn(5)]
+			p.Keys = []world.Key{{T: []string{"e", "r"}[r.Intn(2)], K: 0}}
 		}
 	}
 	if p.Op == "keygen-race" {
 		p.Fault, p.SameAs, p.PreExist, p.PreLink = OutFault{}, "", false, false
 	}
-	if idx%12 == 5 && (p.Fault.Kind == "" || p.Fault.Kind == "fsize") && p.SameAs == "" && p.Op != "keygen-race" && p.Op != "decrypt-p" && p.Op != "encrypt-p" {
+	if idx%12 == 5 && (p.Fault.Kind == "" || p.Fault.Kind == "fsize") && p.SameAs == "" && p.Op != "keygen-race" && p.Op != "decrypt-p" && p.Op != "encrypt-p" && p.Op != "decrypt-sshenc" {
 		// exhaustive: every byte offset at which a size-limited output can fail
 		p.Sweep = true
 		p.Fault = OutFault{Kind: "fsize"}
@@ -377,7 +385,7 @@ func (e C15) Execute(plan interface{}, c *core.Ctx) *core.Verdict {
 	if p.Op == "keygen-race" {
 		return e.race(p, c, kgBin)
 	}
-	if p.Op == "decrypt-p" || p.Op == "encrypt-p" {
+	if p.Op == "decrypt-p" || p.Op == "encrypt-p" || p.Op == "decrypt-sshenc" {
 		return e.passCase(p, c, ageBin)
 	}
 	if !p.Sweep {
@@ -1067,7 +1075,40 @@ func (e C15) passCase(p *C15Plan, c *core.Ctx, ageBin string) *core.Verdict {
 	}
 	preIno, _, preOK := fileID(outPath)
 	var argv []string
-	if p.Op == "decrypt-p" {
+	promptText := "Enter passphrase"
+	typedRight := pass
+	if p.Op == "decrypt-sshenc" {
+		t := "ed"
+		if len(p.Keys) > 0 && p.Keys[0].T == "r" {
+			t = "rsa"
+		}
+		idPath := filepath.Join(dir, "id_key")
+		os.WriteFile(idPath, world.Fixture("c19_"+t+"A.enc"), 0o600)
+		os.WriteFile(idPath+".pub", world.Fixture("c19_"+t+"A.pub"), 0o644)
+		rcp, rerr := agessh.ParseRecipient(strings.TrimSpace(string(world.Fixture("c19_" + t + "A.pub"))))
+		if rerr != nil {
+			return core.Fail("harness", "fixture pub: %v", rerr)
+		}
+		recips := []age.Recipient{rcp}
+		if p.Answer == "notmine" {
+			recips = []age.Recipient{world.Recipient(world.Key{T: "x", K: 7}), world.Recipient(world.Key{T: map[string]string{"ed": "e", "rsa": "r"}[t], K: 1})}
+		}
+		var img bytes.Buffer
+		restore := seam.NewTape(p.Tape).Install()
+		w, werr := age.Encrypt(&img, recips...)
+		if werr == nil {
+			w.Write(P)
+			werr = w.Close()
+		}
+		restore()
+		if werr != nil {
+			return core.Fail("harness", "encrypt: %v", werr)
+		}
+		os.WriteFile(filepath.Join(dir, "in.age"), img.Bytes(), 0o600)
+		argv = []string{ageBin, "-d", "-i", idPath, "-o", outPath, filepath.Join(dir, "in.age")}
+		promptText = "Enter passphrase for"
+		typedRight = "pass-" + t + "A"
+	} else if p.Op == "decrypt-p" {
 		spec := lib.FileSpec{PSeed: p.PSeed, PLen: p.PLen, Tape: p.Tape, Armor: p.Armor, Recips: []lib.Recip{{Key: &world.Key{T: "s", K: 0, WF: 10}}}}
 		img, _ := lib.MustEncrypt(spec)
 		os.WriteFile(filepath.Join(dir, "in.age"), img, 0o600)
@@ -1095,8 +1136,8 @@ func (e C15) passCase(p *C15Plan, c *core.Ctx, ageBin string) *core.Verdict {
 	}
 	done := make(chan error, 1)
 	go func() { done <- cmd.Wait() }()
-	typed := map[string][]string{"right": {pass}, "wrong": {"not the passphrase"}, "empty": {""}, "match": {pass, pass}, "mismatch": {pass, pass + "x"}}[p.Answer]
-	prompts := []string{"Enter passphrase", "Confirm passphrase"}
+	typed := map[string][]string{"right": {typedRight}, "wrong": {"not the passphrase"}, "empty": {""}, "match": {pass, pass}, "mismatch": {pass, pass + "x"}}[p.Answer]
+	prompts := []string{promptText, "Confirm passphrase"}
 	for i, t := range typed {
 		if _, err := pt.Expect(prompts[i], 30*time.Second); err != nil {
 			cmd.Process.Kill()
@@ -1107,7 +1148,7 @@ func (e C15) passCase(p *C15Plan, c *core.Ctx, ageBin string) *core.Verdict {
 		prompts[0] = "\x00never" // each prompt text is matched once
 	}
 	if p.Answer == "hangup" {
-		pt.Expect("Enter passphrase", 30*time.Second)
+		pt.Expect(promptText, 30*time.Second)
 		pt.Close() // the terminal goes away while age waits for the passphrase
 	}
 	exit := -1
@@ -1141,6 +1182,12 @@ func (e C15) passCase(p *C15Plan, c *core.Ctx, ageBin string) *core.Verdict {
 		c.Stats.Inc("probe.header_refusal_output_untouched")
 		return nil
 	}
+	if p.Answer == "notmine" {
+		seen, _ := pt.Expect("\x00never", 300*time.Millisecond)
+		if strings.Contains(seen, "Enter passphrase") {
+			return core.Fail("C15.prompted_for_foreign_file", "%s: the file is not addressed to the passphrase-protected key, yet age asked for its passphrase: %q", desc, clipS(seen))
+		}
+	}
 	switch p.Answer {
 	case "right":
 		if exit != 0 {
@@ -1165,7 +1212,7 @@ func (e C15) passCase(p *C15Plan, c *core.Ctx, ageBin string) *core.Verdict {
 			return core.Fail("C15.refusal_exit0", "%s must be refused but the exit status is 0", desc)
 		}
 		c.Stats.Inc("probe.exit_nonzero")
-		if p.Op == "decrypt-p" {
+		if p.Op == "decrypt-p" || p.Op == "decrypt-sshenc" {
 			return untouched()
 		}
 		if exists && !preOK {
